@@ -6,35 +6,92 @@ PROP = 'C03'
 COQ_HEADER = 'From FV Require Import Common.Batch Model.C03_Model.'
 COQ_AGREE = 'C03_agree'
 COQ_MODEL_TARGETS = ['Model/C03_Model']
-RULE = ('grid over (N, batch_size, buckets) + random large N; features of 5 dtypes / trailing shapes, '
+RULE = ('grid over (N, batch_size, buckets) + random large N + datasets obtained by slicing a larger parent '
+        '(d[a:b:c]: prefixes, suffixes, negative bounds, steps, reversed, empty, full); three call forms (hparams object, '
+        'keywords, hparams object overridden by keywords); features of 5 dtypes / trailing shapes, '
         'preprocessor chains of length 0..2; non-trivial = N > 0 (at least one batch); distinct = distinct case JSON')
-TRUSTED = ['numpy slicing / np.zeros / np.arange semantics (exercised, not modelled)']
+TRUSTED = ['numpy slicing / np.zeros / np.arange / slice-store semantics as read by Common/NpArr.v (exercised by the correspondence)',
+           'per-dtype behaviour of np.zeros(shape, dtype) (rows are abstract in Coq; judged by the oracle on 5 feature kinds)']
 ASSUMPTIONS = ['batch preprocessors are per-example (row-wise) functions, as the property states',
                'batch_size >= 1 and buckets >= 1 (batch_size = 0 raises in range())']
 CASE_TIMEOUT = 20
 
 
+def _slices(rng, k):
+  """k (parent size, a, b, c) slices: prefixes, suffixes, negative bounds, steps, reversed, empty, full."""
+  out = []
+  for _ in range(k):
+    p = rng.choice([rng.randrange(1, 12), rng.randrange(1, 40)])
+    kind = rng.randrange(9)
+    a = b = c = None
+    if kind == 0:
+      b = rng.randrange(0, p + 2)                       # d[:b]
+    elif kind == 1:
+      a = rng.randrange(0, p + 2)                       # d[a:]
+    elif kind == 2:
+      a = -rng.randrange(1, p + 2)                      # d[-k:]
+    elif kind == 3:
+      b = -rng.randrange(1, p + 2)                      # d[:-k]
+    elif kind == 4:
+      c = rng.choice([2, 3, 5])                         # d[::c]
+      a = rng.choice([None, 1, 2])
+    elif kind == 5:
+      c = -rng.choice([1, 2, 3])                        # reversed / negative step
+      a = rng.choice([None, p - 1, p // 2])
+    elif kind == 6:
+      a = rng.randrange(0, p + 1)
+      b = rng.randrange(0, a + 1)                       # empty: b <= a
+    elif kind == 7:
+      a, b = sorted([rng.randrange(-p, p + 1), rng.randrange(-p, p + 1)])
+      c = rng.choice([None, 1, 2])
+    out.append([p, a, b, c])                             # kind 8: the full slice d[:]
+  return out
+
+
+def _sel(sl):
+  """Rows a slice selects, computed on a plain python range (independent of numpy / fedjax)."""
+  p, a, b, c = sl
+  return list(range(p))[slice(a, b, c)]
+
+
 def generate(tier, rng):
   if tier == 'quick':
     grid = [(n, bs, nb) for n in range(0, 25) for bs in range(1, 10) for nb in range(1, 5)]
-    nrand = 60
+    nrand, nslice = 60, 260
   elif tier == 'search':
     grid = [(n, bs, nb) for n in range(0, 70) for bs in range(1, 34) for nb in range(1, 8)]
-    nrand = 300
+    nrand, nslice = 300, 1500
   else:
     grid = [(n, bs, nb) for n in range(0, 41) for bs in range(1, 18) for nb in range(1, 7)]
-    nrand = 400
+    nrand, nslice = 400, 1500
+  # the smallest sliced datasets first (a cached parent length shows on d[:k] with batch_size < parent size)
+  for p in range(1, 5):
+    for b in range(0, p + 1):
+      for bs in (1, 2, 3):
+        yield {'n': len(_sel([p, None, b, None])), 'bs': bs, 'nb': 1 + (p + b) % 3, 'chain': (p + b + bs) % 3,
+               'kw': (p + bs) % 3, 'slice': [p, None, b, None]}
   for i, (n, bs, nb) in enumerate(grid):
-    yield {'n': n, 'bs': bs, 'nb': nb, 'chain': i % 3, 'kw': i % 2}
+    yield {'n': n, 'bs': bs, 'nb': nb, 'chain': i % 3, 'kw': (i // 3) % 3}
   for i in range(nrand):
     bs = rng.choice([1, 2, 3, 7, 8, 16, 31, 32, 64, 100, 128])
     n = rng.choice([rng.randrange(0, 6 * bs + 2), rng.randrange(0, 700)])
-    yield {'n': n, 'bs': bs, 'nb': rng.randrange(1, 10), 'chain': rng.randrange(3), 'kw': rng.randrange(2)}
+    yield {'n': n, 'bs': bs, 'nb': rng.randrange(1, 10), 'chain': rng.randrange(3), 'kw': rng.randrange(3)}
+  for sl in _slices(rng, nslice):
+    n = len(_sel(sl))
+    bs = rng.choice([1, 2, 3, rng.randrange(1, max(2, n + 3)), rng.randrange(1, sl[0] + 2)])
+    yield {'n': n, 'bs': bs, 'nb': rng.randrange(1, 6), 'chain': rng.randrange(3), 'kw': rng.randrange(3), 'slice': sl}
+
+
+def _rows(case):
+  """Row ids (values of column x) of the dataset under test, in order."""
+  return _sel(case['slice']) if case.get('slice') else list(range(case['n']))
 
 
 def _dataset(case):
+  """Returns (dataset under test, arrays of the dataset it was built from).  With a
+  `slice` the dataset under test is parent[a:b:c] of a parent with `slice[0]` rows."""
   import fedjax
-  n = case['n']
+  n = case['slice'][0] if case.get('slice') else case['n']
   ex = {
       'x': np.arange(n, dtype=np.int32),
       'img': (np.arange(n * 6, dtype=np.int64).reshape(n, 3, 2) % 251 + 1).astype(np.uint8),
@@ -44,7 +101,11 @@ def _dataset(case):
   }
   fns = [lambda e: {**e, 'y': e['x'] * 3 + 1}, lambda e: {**e, 'y': e['y'] * e['y'], 'z': e['h'] + 1}][:case['chain']]
   pre = fedjax.BatchPreprocessor(fns)
-  return fedjax.ClientDataset(ex, pre), ex
+  ds = fedjax.ClientDataset(ex, pre)
+  if case.get('slice'):
+    _, a, b, c = case['slice']
+    ds = ds[slice(a, b, c)]
+  return ds, ex
 
 
 def _snap(ex):
@@ -72,7 +133,13 @@ def run(case):
   ds, ex = _dataset(case)
   snap = _snap(ex)
   bs, nb = case['bs'], case['nb']
-  if case['kw']:
+  if case['kw'] == 2:
+    # override form: a base hparams object that differs in every field + keyword overrides
+    v_plain = ds.batch(fedjax.BatchHParams(batch_size=bs + 3, drop_remainder=True), batch_size=bs, drop_remainder=False)
+    v_drop = ds.batch(fedjax.BatchHParams(batch_size=bs + 3, drop_remainder=False), batch_size=bs, drop_remainder=True)
+    v_pad = ds.padded_batch(fedjax.PaddedBatchHParams(batch_size=bs + 3, num_batch_size_buckets=nb + 2),
+                            batch_size=bs, num_batch_size_buckets=nb)
+  elif case['kw']:
     v_plain = ds.batch(batch_size=bs)
     v_drop = ds.batch(batch_size=bs, drop_remainder=True)
     v_pad = ds.padded_batch(batch_size=bs, num_batch_size_buckets=nb)
@@ -90,7 +157,14 @@ def run(case):
     feat_ok &= _features_follow(b, b['x'], None, case)
   for b in pad:
     feat_ok &= (M in b and b[M].dtype == np.bool_ and _features_follow(b, b['x'], b[M], case))
+  try:
+    allx = {k: np.array(v) for k, v in ds.all_examples().items()}
+    all_rows = allx['x'].tolist()
+    feat_ok &= _features_follow(allx, allx['x'], None, case)
+  except ValueError:     # an empty chain result etc. is not expected: reported by the oracle
+    all_rows = None
   return {
+      'len': int(len(ds)), 'all': all_rows,
       'plain': [b['x'].tolist() for b in plain],
       'drop': [b['x'].tolist() for b in drop],
       'padded': [[b['x'].tolist(), [bool(t) for t in b[M].tolist()]] if M in b else [b['x'].tolist(), []] for b in pad],
@@ -153,9 +227,14 @@ def _minimal_bucket(n, bs, nb):
 
 
 def oracle(case, obs):
-  n, bs, nb = case['n'], case['bs'], case['nb']
+  bs, nb = case['bs'], case['nb']
   out = []
-  rows = list(range(n))
+  rows = _rows(case)
+  n = len(rows)
+  if obs.get('len', n) != n:
+    out.append(('dataset-len', f'len(dataset) = {obs["len"]}, the dataset has {n} examples'))
+  if 'all' in obs and obs['all'] != rows:
+    out.append(('all-examples', 'all_examples() is not the preprocessed dataset in order'))
   if [i for b in obs['plain'] for i in b] != rows:
     out.append(('plain-partition', 'batch(): batches do not concatenate to the dataset in order'))
   if any(len(b) != bs for b in obs['plain'][:-1]) or any(not (1 <= len(b) <= bs) for b in obs['plain']):
@@ -197,20 +276,41 @@ def encode(case, obs):
   plain = fw.clist([fw.zlist(b) for b in obs['plain']])
   drop = fw.clist([fw.zlist(b) for b in obs['drop']])
   padded = fw.clist([f'({fw.zlist(x)}, {fw.blist(m)})' for x, m in obs['padded']])
-  return (f'(mkC03 {case["n"]}%nat {case["bs"]}%Z {case["nb"]}%Z, mkO03 ({plain})%Z ({drop})%Z ({padded})%Z)')
+  rows = _rows(case)      # a slice of range(P) is an arithmetic progression
+  start = rows[0] if rows else 0
+  step = rows[1] - rows[0] if len(rows) > 1 else 1
+  return (f'(mkC03 {len(rows)}%nat {case["bs"]}%Z {case["nb"]}%Z {fw.zlit(start)}%Z {fw.zlit(step)}%Z, '
+          f'mkO03 ({plain})%Z ({drop})%Z ({padded})%Z)')
 
 
 def nontrivial(case, obs):
-  return case['n'] > 0
+  return len(_rows(case)) > 0
 
 
 def describe(case, obs):
-  n, bs = case['n'], case['bs']
+  n, bs = len(_rows(case)), case['bs']
+  sl = case.get('slice')
+  kind = ('none' if not sl else 'empty' if n == 0 else 'full' if n == sl[0] and (sl[3] or 1) > 0 else
+          'step' if (sl[3] or 1) != 1 else 'sub')
   return {'N_vs_bs': 'empty' if n == 0 else 'lt' if n < bs else 'eq' if n == bs else 'multiple' if n % bs == 0 else 'gt',
-          'buckets': min(case['nb'], 6), 'chain': case['chain']}
+          'buckets': min(case['nb'], 6), 'chain': case['chain'], 'call_form': ['hparams', 'kwargs', 'override'][int(case['kw'])],
+          'slice': kind}
 
 
 def shrink(case):
+  if case.get('slice'):
+    p, a, b, c = case['slice']
+    for cand in ([p - 1, a, b, c], [p, None, b, c], [p, a, None, c], [p, a, b, None]):
+      if cand[0] >= 1 and cand != case['slice']:
+        yield {**case, 'slice': cand, 'n': len(_sel(cand))}
+    for k in ('bs', 'nb'):
+      if case[k] > 1:
+        yield {**case, k: case[k] - 1}
+    if case['chain']:
+      yield {**case, 'chain': 0}
+    if case['kw']:
+      yield {**case, 'kw': 0}
+    return
   for k in ('n', 'bs', 'nb'):
     lo = 0 if k == 'n' else 1
     v = case[k]
